@@ -42,7 +42,7 @@ type hRec struct {
 func (r *hRec) Subscriptions() event.Subscription { return r.subs }
 func (r *hRec) Components() *Mask                 { return r.comp }
 func (r *hRec) Notify(w *World, e EntityEvent) {
-	vAssume(r.n < hMaxEv)
+	vBound(r.n < hMaxEv, "events<=12")
 	ev := &r.ev[r.n]
 	*ev = hEvent{}
 	r.n++
